@@ -37,6 +37,10 @@ KW = {"override": "override_encoding", "transport": "transport_encoding", "paren
       "likely": "likely_encoding", "default": "default_encoding"}
 BOMS = {"none": b"", "utf-8": b"\xef\xbb\xbf", "utf-16le": b"\xff\xfe", "utf-16be": b"\xfe\xff",
         "utf-32le": b"\xff\xfe\x00\x00", "utf-32be": b"\x00\x00\xfe\xff"}
+# deviations of the CURRENT library from the standard's prescan (H5.Spec.Sniff.html5libDev): none is left after the
+# repairs COMMIT_noUserDefinedMap ... COMMIT_eagerMeta; the switches stay for attribution: a difference that returns is
+# explained by the flags below and reported under its old class, which is no longer a known finding -> VIOLATION
+CURRENT_DEV = set()
 FLAGS = ["commentNoOverlap", "metaNeedsSpace", "endTagOffByOne", "skipByteAfterLt", "ltTerminates", "eagerMeta",
          "noDedup", "contentNoRetry", "contentNoSemicolon", "noUserDefinedMap"]
 
@@ -533,12 +537,12 @@ def oracle_prescan(ctx):
         rest = [d for d in diffs if len(d) < 80 and d not in keep]
         diffs = keep + ctx.rng.sample(rest, min(len(rest), budget - len(keep)))
     explain_prescan(ctx, diffs, "prescan")
-    # conformance of the flagged Spec: with ALL deviations on it must reproduce the real prescan everywhere
-    allsp = spec_prescan_batch(cases, set(FLAGS))
-    for b, s in zip(cases, allsp):
-        if real_meta(b) != s:
-            ctx.fail("prescan:not-covered-by-documented-deviations", "Spec with every documented deviation on differs from "
-                     "the real prescan", {"kind": "prescan", "data": b.decode("latin-1"), "real": real_meta(b), "spec+dev": s})
+    # conformance of the reference configured like the current library (CURRENT_DEV): it must reproduce the real prescan
+    cur = spec_prescan_batch(cases, CURRENT_DEV) if CURRENT_DEV else sp
+    for b, s in zip(cases, cur):
+        if real_meta(b) != s and b not in diffs:
+            ctx.fail("prescan:not-covered-by-documented-deviations", "the reference with the library's documented deviations "
+                     "differs from the real prescan", {"kind": "prescan", "data": b.decode("latin-1"), "real": real_meta(b), "spec+dev": s})
 
 
 LATE_LABELS = ["utf-8", "koi8-r", "utf-16", "utf-16le", "UTF-16BE", "bogus", "windows-1252", "x-user-defined", "big5", " latin1 "]
@@ -547,11 +551,11 @@ LATE_LABELS = ["utf-8", "koi8-r", "utf-16", "utf-16le", "UTF-16BE", "bogus", "wi
 def expected_late(cur, label):
     """HTML standard, 'changing the encoding while parsing' (new encoding from a meta met by the tree builder)"""
     import webencodings
-    if cur in ("utf-16le", "utf-16be"):
-        return cur, "certain"
     e = webencodings.lookup(label)
     if e is None:
-        return cur, "tentative"
+        return cur, "tentative"          # not an encoding label: "change the encoding" is not invoked
+    if cur in ("utf-16le", "utf-16be"):
+        return cur, "certain"
     new = e.name
     if new in ("utf-16le", "utf-16be"):
         new = "utf-8"
@@ -623,14 +627,14 @@ def run_late(ctx, data, args, label, src):
             cls = "late-meta:final-encoding-differs"
         ctx.fail(cls, "after a <meta> declaration met during tree construction the reported encoding differs from the "
                  "standard's 'changing the encoding while parsing'", inp)
-    # the property's own clause "a declared UTF-16 in <meta> means UTF-8": a declaration of UTF-16 that is acted upon
-    # must never leave a UTF-16 encoding reported.  (Under a tentative UTF-16 this clause and the standard's "keep
-    # UTF-16" disagree - that disagreement IS the recorded finding late-meta:changes-a-tentative-utf16; the clause as
-    # stated is what the tree implements and what is checked here.  Revisit when that finding is repaired.)
+    # the property's clause "a declared UTF-16 in <meta> means UTF-8": unless the document is itself being read as
+    # UTF-16 (then it keeps its encoding, repair COMMIT_late-under-utf16), a declaration of UTF-16 that is acted upon
+    # must never leave a UTF-16 encoding reported
     import webencodings
     e = webencodings.lookup(label)
-    if e is not None and e.name in ("utf-16le", "utf-16be") and fconf == "certain" and final in ("utf-16le", "utf-16be"):
-        ctx.fail("late-meta:declared-utf16-not-taken-as-utf8", "a <meta> declaring UTF-16 made a UTF-16 encoding certain "
+    if e is not None and e.name in ("utf-16le", "utf-16be") and cur not in ("utf-16le", "utf-16be") \
+            and final in ("utf-16le", "utf-16be"):
+        ctx.fail("late-meta:declared-utf16-not-taken-as-utf8", "a <meta> declaring UTF-16 left a UTF-16 encoding reported "
                  "instead of being taken as UTF-8", dict(inp, expected=lit))
     # documentEncoding reports the encoding finally used: the tree is the tree of the bytes decoded with it
     try:
@@ -667,7 +671,8 @@ def oracle_tree(ctx):
     late_pad = b"<!-- " + b"p" * 1100 + b" -->"
     argsets = [{}, {"override": "koi8-r"}, {"transport": "utf-8"}, {"likely": "shift_jis"}, {"default": "utf-8"},
                {"parent": "utf-16"}, {"override": "utf-16le"}, {"default": "gbk"}, {"override": "utf-8"},
-               {"likely": "big5"}, {"transport": "euc-kr"}, {"override": "iso-2022-jp"}, {"default": "replacement"}]
+               {"likely": "big5"}, {"transport": "euc-kr"}, {"override": "iso-2022-jp"}, {"default": "replacement"},
+               {"override": "x-user-defined"}, {"transport": "hz-gb-2312"}]
     cases = []
     for doc in TREE_DOCS:
         for m in metas:
@@ -815,6 +820,123 @@ REGRESSIONS = [
             "likely": None,
             "default": "windows-1252"
         }
+    }
+] + [
+    {
+        "kind": "prescan",
+        "data": "<meta charset=bogus charset=utf-8>"
+    },
+    {
+        "kind": "prescan",
+        "data": "<meta/charset=utf-8>"
+    },
+    {
+        "kind": "prescan",
+        "data": "<meta charset=x-user-defined>"
+    },
+    {
+        "kind": "prescan",
+        "data": "<!--><meta charset=utf-8>"
+    },
+    {
+        "kind": "prescan",
+        "data": "<<meta charset=utf-8>"
+    },
+    {
+        "kind": "prescan",
+        "data": "<a<meta charset=utf-8>"
+    },
+    {
+        "kind": "prescan",
+        "data": "<meta charset=utf-8 "
+    },
+    {
+        "kind": "prescan",
+        "data": "</a b='><meta charset=utf-8>'>"
+    },
+    {
+        "kind": "prescan",
+        "data": "<meta http-equiv=content-type content='charset charset=utf-8'>"
+    },
+    {
+        "kind": "prescan",
+        "data": "<meta http-equiv=content-type content=charset=utf-8;>"
+    },
+    {
+        "kind": "late",
+        "data": "<!doctype html><html><head><title>t</title><!-- pppppppppppppppppppppppppppppppppppppppppppppppppppppppppppppppppppppppppppppppppppppppppppppppppppppppppppppppppppppppppppppppppppppppppppppppppppppppppppppppppppppppppppppppppppppppppppppppppppppppppppppppppppppppppppppppppppppppppppppppppppppppppppppppppppppppppppppppppppppppppppppppppppppppppppppppppppppppppppppppppppppppppppppppppppppppppppppppppppppppppppppppppppppppppppppppppppppppppppppppppppppppppppppppppppppppppppppppppppppppppppppppppppppppppppppppppppppppppppppppppppppppppppppppppppppppppppppppppppppppppppppppppppppppppppppppppppppppppppppppppppppppppppppppppppppppppppppppppppppppppppppppppppppppppppppppppppppppppppppppppppppppppppppppppppppppppppppppppppppppppppppppppppppppppppppppppppppppppppppppppppppppppppppppppppppppppppppppppppppppppppppppppppppppppppppppppppppppppppppppppppppppppppppppppppppppppppppppppppppppppppppppppppppppppppppppppppppppppppppppppppppppppppppppppppppppppppppppppppppppppppppppppppppppppppppppppppppppppppppppppppppppppppppppppppppppppppppppppppppppppppppppppppppppppppppppppppppppppppppppppppppppppppppppppppppppppppppppppppppppppppppppppppppppppppp --><meta charset=x-user-defined></head><body>\u00e9\u00c1</body>",
+        "args": {
+            "override": None,
+            "transport": None,
+            "parent": None,
+            "likely": None,
+            "default": "windows-1252"
+        },
+        "label": "x-user-defined"
+    },
+    {
+        "kind": "late",
+        "data": "<\u0000!\u0000d\u0000o\u0000c\u0000t\u0000y\u0000p\u0000e\u0000 \u0000h\u0000t\u0000m\u0000l\u0000>\u0000<\u0000h\u0000t\u0000m\u0000l\u0000>\u0000<\u0000h\u0000e\u0000a\u0000d\u0000>\u0000<\u0000t\u0000i\u0000t\u0000l\u0000e\u0000>\u0000t\u0000<\u0000/\u0000t\u0000i\u0000t\u0000l\u0000e\u0000>\u0000<\u0000!\u0000-\u0000-\u0000 \u0000p\u0000p\u0000p\u0000p\u0000p\u0000p\u0000p\u0000p\u0000p\u0000p\u0000p\u0000p\u0000p\u0000p\u0000p\u0000p\u0000p\u0000p\u0000p\u0000p\u0000p\u0000p\u0000p\u0000p\u0000p\u0000p\u0000p\u0000p\u0000p\u0000p\u0000p\u0000p\u0000p\u0000p\u0000p\u0000p\u0000p\u0000p\u0000p\u0000p\u0000p\u0000p\u0000p\u0000p\u0000p\u0000p\u0000p\u0000p\u0000p\u0000p\u0000p\u0000p\u0000p\u0000p\u0000p\u0000p\u0000p\u0000p\u0000p\u0000p\u0000p\u0000p\u0000p\u0000p\u0000p\u0000p\u0000p\u0000p\u0000p\u0000p\u0000p\u0000p\u0000p\u0000p\u0000p\u0000p\u0000p\u0000p\u0000p\u0000p\u0000p\u0000p\u0000p\u0000p\u0000p\u0000p\u0000p\u0000p\u0000p\u0000p\u0000p\u0000p\u0000p\u0000p\u0000p\u0000p\u0000p\u0000p\u0000p\u0000p\u0000p\u0000p\u0000p\u0000p\u0000p\u0000p\u0000p\u0000p\u0000p\u0000p\u0000p\u0000p\u0000p\u0000p\u0000p\u0000p\u0000p\u0000p\u0000p\u0000p\u0000p\u0000p\u0000p\u0000p\u0000p\u0000p\u0000p\u0000p\u0000p\u0000p\u0000p\u0000p\u0000p\u0000p\u0000p\u0000p\u0000p\u0000p\u0000p\u0000p\u0000p\u0000p\u0000p\u0000p\u0000p\u0000p\u0000p\u0000p\u0000p\u0000p\u0000p\u0000p\u0000p\u0000p\u0000p\u0000p\u0000p\u0000p\u0000p\u0000p\u0000p\u0000p\u0000p\u0000p\u0000p\u0000p\u0000p\u0000p\u0000p\u0000p\u0000p\u0000p\u0000p\u0000p\u0000p\u0000p\u0000p\u0000p\u0000p\u0000p\u0000p\u0000p\u0000p\u0000p\u0000p\u0000p\u0000p\u0000p\u0000p\u0000p\u0000p\u0000p\u0000p\u0000p\u0000p\u0000p\u0000p\u0000p\u0000p\u0000p\u0000p\u0000p\u0000p\u0000p\u0000p\u0000p\u0000p\u0000p\u0000p\u0000p\u0000p\u0000p\u0000p\u0000p\u0000p\u0000p\u0000p\u0000p\u0000p\u0000p\u0000p\u0000p\u0000p\u0000p\u0000p\u0000p\u0000p\u0000p\u0000p\u0000p\u0000p\u0000p\u0000p\u0000p\u0000p\u0000p\u0000p\u0000p\u0000p\u0000p\u0000p\u0000p\u0000p\u0000p\u0000p\u0000p\u0000p\u0000p\u0000p\u0000p\u0000p\u0000p\u0000p\u0000p\u0000p\u0000p\u0000p\u0000p\u0000p\u0000p\u0000p\u0000p\u0000p\u0000p\u0000p\u0000p\u0000p\u0000p\u0000p\u0000p\u0000p\u0000p\u0000p\u0000p\u0000p\u0000p\u0000p\u0000p\u0000p\u0000p\u0000p\u0000p\u0000p\u0000p\u0000p\u0000p\u0000p\u0000p\u0000p\u0000p\u0000p\u0000p\u0000p\u0000p\u0000p\u0000p\u0000p\u0000p\u0000p\u0000p\u0000p\u0000p\u0000p\u0000p\u0000p\u0000p\u0000p\u0000p\u0000p\u0000p\u0000p\u0000p\u0000p\u0000p\u0000p\u0000p\u0000p\u0000p\u0000p\u0000p\u0000p\u0000p\u0000p\u0000p\u0000p\u0000p\u0000p\u0000p\u0000p\u0000p\u0000p\u0000p\u0000p\u0000p\u0000p\u0000p\u0000p\u0000p\u0000p\u0000p\u0000p\u0000p\u0000p\u0000p\u0000p\u0000p\u0000p\u0000p\u0000p\u0000p\u0000p\u0000p\u0000p\u0000p\u0000p\u0000p\u0000p\u0000p\u0000p\u0000p\u0000p\u0000p\u0000p\u0000p\u0000p\u0000p\u0000p\u0000p\u0000p\u0000p\u0000p\u0000p\u0000p\u0000p\u0000p\u0000p\u0000p\u0000p\u0000p\u0000p\u0000p\u0000p\u0000p\u0000p\u0000p\u0000p\u0000p\u0000p\u0000p\u0000p\u0000p\u0000p\u0000p\u0000p\u0000p\u0000p\u0000p\u0000p\u0000p\u0000p\u0000p\u0000p\u0000p\u0000p\u0000p\u0000p\u0000p\u0000p\u0000p\u0000p\u0000p\u0000p\u0000p\u0000p\u0000p\u0000p\u0000p\u0000p\u0000p\u0000p\u0000p\u0000p\u0000p\u0000p\u0000p\u0000p\u0000p\u0000p\u0000p\u0000p\u0000p\u0000p\u0000p\u0000p\u0000p\u0000p\u0000p\u0000p\u0000p\u0000p\u0000p\u0000p\u0000p\u0000p\u0000p\u0000p\u0000p\u0000p\u0000p\u0000p\u0000p\u0000p\u0000p\u0000p\u0000p\u0000p\u0000p\u0000p\u0000p\u0000p\u0000p\u0000p\u0000p\u0000p\u0000p\u0000p\u0000p\u0000p\u0000p\u0000p\u0000p\u0000p\u0000p\u0000p\u0000p\u0000p\u0000p\u0000p\u0000p\u0000p\u0000p\u0000p\u0000p\u0000p\u0000p\u0000p\u0000p\u0000p\u0000p\u0000p\u0000p\u0000p\u0000p\u0000p\u0000p\u0000p\u0000p\u0000p\u0000p\u0000p\u0000p\u0000p\u0000p\u0000p\u0000p\u0000p\u0000p\u0000p\u0000p\u0000p\u0000p\u0000p\u0000p\u0000p\u0000p\u0000p\u0000p\u0000p\u0000p\u0000p\u0000p\u0000p\u0000p\u0000p\u0000p\u0000p\u0000p\u0000p\u0000p\u0000p\u0000p\u0000p\u0000p\u0000p\u0000p\u0000p\u0000p\u0000p\u0000p\u0000p\u0000p\u0000p\u0000p\u0000p\u0000p\u0000p\u0000p\u0000p\u0000p\u0000p\u0000p\u0000p\u0000p\u0000p\u0000p\u0000p\u0000p\u0000p\u0000p\u0000p\u0000p\u0000p\u0000p\u0000p\u0000p\u0000p\u0000p\u0000p\u0000p\u0000p\u0000p\u0000p\u0000p\u0000p\u0000p\u0000p\u0000p\u0000p\u0000p\u0000p\u0000p\u0000p\u0000p\u0000p\u0000p\u0000p\u0000p\u0000p\u0000p\u0000p\u0000p\u0000p\u0000p\u0000p\u0000p\u0000p\u0000p\u0000p\u0000p\u0000p\u0000p\u0000p\u0000p\u0000p\u0000p\u0000p\u0000p\u0000p\u0000p\u0000p\u0000p\u0000p\u0000p\u0000p\u0000p\u0000p\u0000p\u0000p\u0000p\u0000p\u0000p\u0000p\u0000p\u0000p\u0000p\u0000p\u0000p\u0000p\u0000p\u0000p\u0000p\u0000p\u0000p\u0000p\u0000p\u0000p\u0000p\u0000p\u0000p\u0000p\u0000p\u0000p\u0000p\u0000p\u0000p\u0000p\u0000p\u0000p\u0000p\u0000p\u0000p\u0000p\u0000p\u0000p\u0000p\u0000p\u0000p\u0000p\u0000p\u0000p\u0000p\u0000p\u0000p\u0000p\u0000p\u0000p\u0000p\u0000p\u0000p\u0000p\u0000p\u0000p\u0000p\u0000p\u0000p\u0000p\u0000p\u0000p\u0000p\u0000p\u0000p\u0000p\u0000p\u0000p\u0000p\u0000p\u0000p\u0000p\u0000p\u0000p\u0000p\u0000p\u0000p\u0000p\u0000p\u0000p\u0000p\u0000p\u0000p\u0000p\u0000p\u0000p\u0000p\u0000p\u0000p\u0000p\u0000p\u0000p\u0000p\u0000p\u0000p\u0000p\u0000p\u0000p\u0000p\u0000p\u0000p\u0000p\u0000p\u0000p\u0000p\u0000p\u0000p\u0000p\u0000p\u0000p\u0000p\u0000p\u0000p\u0000p\u0000p\u0000p\u0000p\u0000p\u0000p\u0000p\u0000p\u0000p\u0000p\u0000p\u0000p\u0000p\u0000p\u0000p\u0000p\u0000p\u0000p\u0000p\u0000p\u0000p\u0000p\u0000p\u0000p\u0000p\u0000p\u0000p\u0000p\u0000p\u0000p\u0000p\u0000p\u0000p\u0000p\u0000p\u0000p\u0000p\u0000p\u0000p\u0000p\u0000p\u0000p\u0000p\u0000p\u0000p\u0000p\u0000p\u0000p\u0000p\u0000p\u0000p\u0000p\u0000p\u0000p\u0000p\u0000p\u0000p\u0000p\u0000p\u0000p\u0000p\u0000p\u0000p\u0000p\u0000p\u0000p\u0000p\u0000p\u0000p\u0000p\u0000p\u0000p\u0000p\u0000p\u0000p\u0000p\u0000p\u0000p\u0000p\u0000p\u0000p\u0000p\u0000p\u0000p\u0000p\u0000p\u0000p\u0000p\u0000p\u0000p\u0000p\u0000p\u0000p\u0000p\u0000p\u0000p\u0000p\u0000p\u0000p\u0000p\u0000p\u0000p\u0000p\u0000p\u0000p\u0000p\u0000p\u0000p\u0000p\u0000p\u0000p\u0000p\u0000p\u0000p\u0000p\u0000p\u0000p\u0000p\u0000p\u0000p\u0000p\u0000p\u0000p\u0000p\u0000p\u0000p\u0000p\u0000p\u0000p\u0000p\u0000p\u0000p\u0000p\u0000p\u0000p\u0000p\u0000p\u0000p\u0000p\u0000p\u0000p\u0000p\u0000p\u0000p\u0000p\u0000p\u0000p\u0000p\u0000p\u0000p\u0000p\u0000p\u0000p\u0000p\u0000p\u0000p\u0000p\u0000p\u0000p\u0000p\u0000p\u0000p\u0000p\u0000p\u0000p\u0000p\u0000p\u0000p\u0000p\u0000p\u0000p\u0000p\u0000p\u0000p\u0000p\u0000p\u0000p\u0000p\u0000p\u0000p\u0000p\u0000p\u0000p\u0000p\u0000p\u0000p\u0000p\u0000p\u0000p\u0000p\u0000p\u0000p\u0000p\u0000p\u0000p\u0000p\u0000p\u0000p\u0000p\u0000p\u0000p\u0000p\u0000p\u0000p\u0000p\u0000p\u0000p\u0000p\u0000p\u0000p\u0000p\u0000p\u0000p\u0000p\u0000p\u0000p\u0000p\u0000p\u0000p\u0000p\u0000p\u0000p\u0000p\u0000p\u0000p\u0000p\u0000p\u0000p\u0000p\u0000p\u0000p\u0000p\u0000p\u0000p\u0000p\u0000p\u0000p\u0000p\u0000p\u0000p\u0000p\u0000p\u0000p\u0000p\u0000p\u0000p\u0000p\u0000p\u0000p\u0000p\u0000p\u0000p\u0000p\u0000p\u0000p\u0000p\u0000p\u0000p\u0000p\u0000p\u0000p\u0000p\u0000p\u0000p\u0000p\u0000p\u0000p\u0000p\u0000p\u0000p\u0000p\u0000p\u0000p\u0000p\u0000p\u0000p\u0000p\u0000p\u0000p\u0000p\u0000p\u0000p\u0000p\u0000p\u0000p\u0000p\u0000p\u0000p\u0000p\u0000p\u0000p\u0000p\u0000p\u0000p\u0000p\u0000p\u0000p\u0000p\u0000p\u0000p\u0000p\u0000p\u0000p\u0000p\u0000p\u0000p\u0000p\u0000p\u0000p\u0000p\u0000p\u0000p\u0000p\u0000p\u0000p\u0000p\u0000p\u0000p\u0000p\u0000p\u0000p\u0000p\u0000p\u0000p\u0000p\u0000p\u0000p\u0000p\u0000p\u0000p\u0000p\u0000p\u0000p\u0000p\u0000p\u0000p\u0000p\u0000p\u0000p\u0000p\u0000p\u0000p\u0000p\u0000p\u0000p\u0000p\u0000p\u0000p\u0000p\u0000p\u0000p\u0000p\u0000p\u0000p\u0000p\u0000p\u0000p\u0000p\u0000p\u0000p\u0000p\u0000p\u0000p\u0000p\u0000p\u0000p\u0000p\u0000p\u0000p\u0000p\u0000p\u0000 \u0000-\u0000-\u0000>\u0000<\u0000m\u0000e\u0000t\u0000a\u0000 \u0000c\u0000h\u0000a\u0000r\u0000s\u0000e\u0000t\u0000=\u0000k\u0000o\u0000i\u00008\u0000-\u0000r\u0000>\u0000<\u0000/\u0000h\u0000e\u0000a\u0000d\u0000>\u0000<\u0000b\u0000o\u0000d\u0000y\u0000>\u0000x\u0000<\u0000/\u0000b\u0000o\u0000d\u0000y\u0000>\u0000",
+        "args": {
+            "override": None,
+            "transport": None,
+            "parent": None,
+            "likely": "utf-16le",
+            "default": "windows-1252"
+        },
+        "label": "koi8-r"
+    },
+    {
+        "kind": "prescan",
+        "data": "<meta charset=utf-8 "
+    },
+    {
+        "kind": "prescan",
+        "data": "<meta content='charset=koi8-r' charset=big5 http-equiv=content-type>"
+    },
+    {
+        "kind": "prescan",
+        "data": "<meta charset=bogus content='charset=koi8-r' http-equiv=content-type>"
+    },
+    {
+        "kind": "prescan",
+        "data": "<metax a='<meta charset=utf-8>'>"
+    },
+    {
+        "kind": "prescan",
+        "data": "<meta/ charset=utf-8/>"
+    },
+    {
+        "kind": "prescan",
+        "data": "<!---><meta charset=utf-8>"
+    },
+    {
+        "kind": "prescan",
+        "data": "<a<meta charset=utf-8>"
+    },
+    {
+        "kind": "prescan",
+        "data": "<meta charset=utf-8<>"
+    },
+    {
+        "kind": "prescan",
+        "data": "</1a b='><meta charset=utf-8>'>"
+    },
+    {
+        "kind": "prescan",
+        "data": "<meta http-equiv=content-type content='charset charset=koi8-r'>"
+    },
+    {
+        "kind": "prescan",
+        "data": "<meta http-equiv=content-type content=charset=koi8-r;x>"
+    },
+    {
+        "kind": "prescan",
+        "data": "<meta http-equiv=x http-equiv=content-type content=charset=koi8-r>"
+    },
+    {
+        "kind": "prescan",
+        "data": "<<<meta charset=utf-8>"
     }
 ]
 
